@@ -360,6 +360,9 @@ class Check:
 
     @staticmethod
     def _stale(obj, src):
+        """obj is stale when its source or any header it included (per the .d file) is newer.  The .d file may
+        have been written under another repository root (bin/muttest copies build/ and runs with REPO=<scratch>):
+        recorded paths under that root are mapped onto the current REPO, so a header-only change is seen."""
         if not os.path.exists(obj):
             return True
         mt = os.path.getmtime(obj)
@@ -367,7 +370,16 @@ class Check:
         deps = [src]
         if os.path.exists(dfile):
             txt = open(dfile).read().replace("\\\n", " ")
-            deps += txt.split(":", 1)[1].split() if ":" in txt else []
+            rec = txt.split(":", 1)[1].split() if ":" in txt else []
+            rel = os.path.relpath(src, REPO)
+            old_root = None
+            for d in rec:
+                if d.endswith("/" + rel):
+                    old_root = d[:-len(rel) - 1]
+                    break
+            if old_root and os.path.abspath(old_root) != os.path.abspath(REPO):
+                rec = [REPO + d[len(old_root):] if d.startswith(old_root + "/") else d for d in rec]
+            deps += rec
         for dpath in deps:
             try:
                 if os.path.getmtime(dpath) > mt:
